@@ -5,6 +5,7 @@ import JmesVerif.Lemmas.Lexer
 import JmesVerif.Lemmas.AbnfSound
 import JmesVerif.Lemmas.AbnfComplete
 import JmesVerif.Lemmas.LexTable
+import JmesVerif.Lemmas.LexSpell
 import JmesVerif.Generated.LexTable
 /-!
 # C03 — compile accepts exactly the JMESPath language
@@ -223,6 +224,18 @@ theorem C03_abnf_language (cs : List Char) :
     obtain ⟨e, a, hp, hc⟩ := C03_abnf_complete w hw ts hy
     exact ⟨e, a, by simp [parseExpr, hlex, hp], hc⟩
 
+/-- **From sentences to strings.** Every sentence of the published grammar whose token payloads can be written down
+(`Tok.Spellable`: identifiers are identifiers, numbers fit 32 bits, literals are JSON values that print and parse back) is the
+token list of an actual string — its tokens spelled canonically and separated by single spaces — and that string compiles, to a tree
+that spells exactly the sentence and uses none of the deviations. -/
+theorem C03_sentence_has_string (w : List Tok) (hw : Abnf.Expression w) (hs : ∀ t ∈ w, t.Spellable) :
+    ∃ (e : Expr) (a : Ast), parseExpr (spellToks w) = .ok (e, a) ∧ e.toks = w ∧ a.strip = e.ast ∧
+      (GrammarCheck.exprDev false e).languageClean := by
+  obtain ⟨ps, hlex, hps⟩ := lex_spell w hs
+  obtain ⟨e, hl, ht, hc⟩ := abnf_complete w hw
+  obtain ⟨a, hp, hstrip⟩ := C03_complete e hl ps (by rw [ht]; exact hps)
+  exact ⟨e, a, by simp [parseExpr, hlex, hp], ht, hstrip, hc⟩
+
 /-- **The lexer's dispatch, re-extracted from lexer.rs on every run, is the documented one** (`decide` over the generated table):
 which first characters start an identifier, which are single-character tokens, which look one character ahead, which are
 whitespace — and, by `lexOne_eq_table`, the lexer model does exactly what that table says for every character. A change of
@@ -274,6 +287,7 @@ end JmesVerif
 #print axioms JmesVerif.C03_abnf_sound
 #print axioms JmesVerif.C03_abnf_complete
 #print axioms JmesVerif.C03_abnf_language
+#print axioms JmesVerif.C03_sentence_has_string
 #print axioms JmesVerif.C03_lex_table
 #print axioms JmesVerif.C03_lexOne_follows_table
 #print axioms JmesVerif.C03_whitespace
